@@ -46,6 +46,26 @@ Definition route_eq (O T : table) : Prop :=
 (* the guard of the domain: every entry has at least one source direction ({None} counts) *)
 Definition nonempty_sources (t : table) : Prop := forall e, In e t -> e_sources e <> 0.
 
+(* The domain of the property.
+   table32: keys and masks are 32-bit unsigned and no key bit lies outside its mask;
+   sorted_by_generality: listed in increasing order of generality (number of Xs), read first-match;
+   orthogonal: no two entries match a common 32-bit key (then the order does not matter). *)
+Definition table32 (t : table) : Prop :=
+  forall e, In e t ->
+    0 <= e_key e <= 4294967295 /\ 0 <= e_mask e <= 4294967295
+    /\ Z.land (e_key e) (Z.lnot (e_mask e)) = 0.
+
+Definition sorted_by_generality (t : table) : Prop :=
+  forall i j a b, (i <= j)%nat -> nth_error t i = Some a -> nth_error t j = Some b ->
+                  gen_of a <= gen_of b.
+
+Definition orthogonal (t : table) : Prop :=
+  forall i j a b k, i <> j -> nth_error t i = Some a -> nth_error t j = Some b ->
+                    key32 k -> matches a k = true -> matches b k = false.
+
+Definition minimiser_domain (t : table) : Prop :=
+  table32 t /\ nonempty_sources t /\ (sorted_by_generality t \/ orthogonal t).
+
 (* ------------------------------------------------------------------------------------------------ *)
 (** * The validator: decides route_eq without enumerating keys
 
